@@ -1,7 +1,7 @@
 """C29 - qrscp returns exactly the entities the PS3.4 matching rules select.
 
 Bounded-exhaustive enumeration: every database of <= 3 instances out of a
-7-instance universe (2+ patients, studies, series; values chosen to separate
+8-instance universe (2+ patients, studies, series; numeric keys incl. 0; values chosen to separate
 literal characters from SQL wildcards and upper from lower case) plus the full
 universe; identifiers at every query level with every matching type per key
 (absent, universal, single value, '*' / '?' wildcards, UID list, the three
@@ -26,7 +26,8 @@ SR_FIND = "1.2.840.10008.5.1.4.1.2.2.1"
 
 UNIVERSE = [
     dict(PatientID="1", PatientName="A^B", StudyInstanceUID="1.1", StudyDate="20200101", AccessionNumber="ACC1", SeriesInstanceUID="1.1.1", Modality="CT", SeriesNumber="1", SOPInstanceUID="1.1.1.1", InstanceNumber="1"),
-    dict(PatientID="1", PatientName="A^B", StudyInstanceUID="1.1", StudyDate="20200101", AccessionNumber="ACC1", SeriesInstanceUID="1.1.1", Modality="CT", SeriesNumber="1", SOPInstanceUID="1.1.1.2", InstanceNumber="2"),
+    dict(PatientID="1", PatientName="A^B", StudyInstanceUID="1.1", StudyDate="20200101", AccessionNumber="ACC1", SeriesInstanceUID="1.1.1", Modality="CT", SeriesNumber="1", SOPInstanceUID="1.1.1.2", InstanceNumber="0"),
+    dict(PatientID="1", PatientName="A^B", StudyInstanceUID="1.1", StudyDate="20200101", AccessionNumber="ACC1", SeriesInstanceUID="1.1.2", Modality="MR", SeriesNumber="0", SOPInstanceUID="1.1.2.1", InstanceNumber="1"),
     dict(PatientID="1", PatientName="A^B", StudyInstanceUID="1.2", StudyDate="20200102", AccessionNumber="A_C1", SeriesInstanceUID="1.2.1", Modality="MR", SeriesNumber="1", SOPInstanceUID="1.2.1.1", InstanceNumber="1"),
     dict(PatientID="2", PatientName="a^b", StudyInstanceUID="2.1", StudyDate="20200101", AccessionNumber="A%C1", SeriesInstanceUID="2.1.1", Modality="CT", SeriesNumber="2", SOPInstanceUID="2.1.1.1", InstanceNumber="1"),
     dict(PatientID="A_", PatientName="AB^", StudyInstanceUID="3.1", StudyDate="20200103", AccessionNumber="ABC1", SeriesInstanceUID="3.1.1", Modality="CT", SeriesNumber="1", SOPInstanceUID="3.1.1.1", InstanceNumber="1"),
@@ -60,7 +61,7 @@ def identifiers(quick):
                     d[k] = v
             out.append(("patient", PR_FIND, d))
     for mod in (ABSENT, "", "CT", "ct", "C?", "*", "M*"):
-        for sn in (ABSENT, "1", ""):
+        for sn in (ABSENT, "1", "", "0"):
             d = {"QueryRetrieveLevel": "SERIES", "PatientID": "1", "StudyInstanceUID": "1.1"}
             if mod is not ABSENT:
                 d["Modality"] = mod
@@ -70,6 +71,8 @@ def identifiers(quick):
             out.append(("patient", PR_FIND, d))
     for sop in ("", "1.1.1.1", ["1.1.1.1", "1.1.1.2"]):
         out.append(("patient", PR_FIND, {"QueryRetrieveLevel": "IMAGE", "PatientID": "1", "StudyInstanceUID": "1.1", "SeriesInstanceUID": "1.1.1", "SOPInstanceUID": sop}))
+    for inum in ("0", "1", "2", ""):
+        out.append(("patient", PR_FIND, {"QueryRetrieveLevel": "IMAGE", "PatientID": "1", "StudyInstanceUID": "1.1", "SeriesInstanceUID": "1.1.1", "SOPInstanceUID": "", "InstanceNumber": inum}))
     # invalid hierarchies
     out.append(("patient", PR_FIND, {"PatientID": "1"}))
     out.append(("patient", PR_FIND, {"QueryRetrieveLevel": "PATIENT"}))
@@ -280,7 +283,7 @@ def run(ctx: core.Ctx) -> core.Result:
     cov = {
         "evaluations": tot,
         "distinct_nontrivial": len(dbs) * len([1 for r, m, d in idents if ref.validate(r, d) is None]),
-        "rule": f"{len(dbs)} databases (subsets of size <= 3 of a 7-instance universe + the full universe; quick tier: every k-th) x {len(idents)} identifiers (all combinations of matching types per key at each level, invalid hierarchies, study root, C-GET/C-MOVE key restriction); non-trivial = valid hierarchy",
+        "rule": f"{len(dbs)} databases (subsets of size <= 3 of an 8-instance universe, incl. series / instance numbers 0, + the full universe; quick tier: every k-th) x {len(idents)} identifiers (all combinations of matching types per key at each level, invalid hierarchies, study root, C-GET/C-MOVE key restriction); non-trivial = valid hierarchy",
         "exhaustive": not ctx.quick,
         "samples": [{"root": idents[i][0], "identifier": {k: v for k, v in idents[i][2].items()}} for i in ctx.sample_indices(len(idents), 5)],
     }
